@@ -1,4 +1,5 @@
 import NessaiVerif.Proofs.LiveSetInv
+import NessaiVerif.Proofs.LiveSetTx
 /-
 C01 — the live set evolves only by likelihood-constrained replacement.
 Property theorems only (model: Model/LiveSet.lean, lemmas: Proofs/LiveSet*.lean).
@@ -261,6 +262,25 @@ theorem insertLive_at_zero_single (w p : Pt) (h : p.logL ≤ w.logL) :
 
 example : insertLive [⟨2, 3, 0, .fin, true⟩] ⟨6, 3, 1, .fin, true⟩ = .ok ([⟨6, 3, 1, .fin, true⟩], -1) :=
   insertLive_at_zero_single _ _ (by decide)
+
+/-- **The source of `insert_live_point` IS the modelled slice program** (translation tie).  `Gen/LiveSetTx.lean` is
+regenerated on every run from the current text of `NestedSampler.insert_live_point` by `harness/pyarr2lean.py`, statement by
+statement, in the Python/NumPy indexing semantics of `Model/PySlice.lean` (negative indices, clipped slice bounds, NumPy's
+refusal to broadcast a slice assignment of the wrong length — validated against NumPy itself on every run).  For every live
+set and every point the generated definition returns exactly what the hand-written `insertLive` returns: the same new live
+set and reported index, or the same exception (`ValueError` ↦ `shape`, `IndexError` ↦ `index`).  All theorems of this file
+about `insertLive` are therefore theorems about what the source says now. -/
+theorem insert_live_point_source_eq_model (live : List Pt) (p : Pt) :
+    (Gen.LiveSetTx.insert_live_point live p).mapError LiveSetTx.toLS = insertLive live p :=
+  LiveSetTx.insert_live_point_eq live p
+
+/-- applied: the generated definition run on a concrete live set (new point of likelihood 4 into likelihoods 1, 3, 5: the
+worst point leaves, the new one lands at index 1), and on the call that NumPy rejects -/
+example : Gen.LiveSetTx.insert_live_point Ex.s0.live ⟨6, 4, 1, .fin, true⟩ =
+    .ok ([⟨6, 4, 1, .fin, true⟩, ⟨1, 5, 0, .fin, true⟩, ⟨5, 7, 0, .fin, true⟩], 0) := by rfl
+
+example : (Gen.LiveSetTx.insert_live_point Ex.s0.live ⟨6, 3, 1, .fin, true⟩).mapError LiveSetTx.toLS = .error .shape := by
+  rw [insert_live_point_source_eq_model]; exact insertLive_fails_at_zero _ _ _ (by decide) (by decide)
 
 /-- The filter of `yield_sample`: an accepted candidate has `logP ≠ -inf` and a finite likelihood
 strictly above `logLmin`, where the likelihood is the stored one unless that is `0.0` (falsy), in
